@@ -162,7 +162,12 @@ def install(E):
     X['repr'] = lambda e, n, pos, kws, st, k: k(st, fresh_str('repr'))
 
     def str_mod(e, n, pos, kws, st, k):
-        # '%...' % x : an uninterpreted function of the format and the argument values
+        # '%...' % (x,) : a function of the format string and the argument value (T-FMT)
+        fmt, arg = pos
+        if arg.ty.kind == 'tup' and len(arg.ty.args) == 1:
+            x = (arg.items if arg.items is not None else unpack(arg.ty, arg.t).items)[0]
+            if x.ty.kind in ('float', 'int', 'str'):
+                return k(st, SV(STR, e.fmt_fn(x.ty)(fmt.t, x.t)))
         return k(st, fresh_str('fmt'))
     X['str_mod'] = str_mod
 
@@ -203,6 +208,10 @@ def install(E):
         return k(st, SV(STR, J(o.t, st.list_elems(lst), st.list_len(lst))))
     M[('str', 'join')] = m_join
 
+    def fmt_fn(ty):
+        return z3.Function('py_fmt_' + sortkey(ty), z3.StringSort(), sort_of(ty), z3.StringSort())
+    E.fmt_fn = fmt_fn
+
     def join_fn():
         return z3.Function('py_join', z3.StringSort(), arr(z3.IntSort(), z3.StringSort()), z3.IntSort(), z3.StringSort())
     E.join_fn = join_fn
@@ -224,7 +233,9 @@ def install(E):
         er = z3.Const(fresh_name('ext'), ea.sort())
         j = z3.Int(fresh_name('j'))
         st.assume(forall([j], z3.Implies(z3.And(0 <= j, j < na), z3.Select(er, j) == z3.Select(ea, j)), patterns=[z3.Select(er, j)]),
-                  forall([j], z3.Implies(z3.And(na <= j, j < na + nb), z3.Select(er, j) == z3.Select(eb, j - na)), patterns=[z3.Select(er, j)]))
+                  forall([j], z3.Implies(z3.And(na <= j, j < na + nb), z3.Select(er, j) == z3.Select(eb, j - na)), patterns=[z3.Select(er, j)]),
+                  forall([j], z3.Implies(z3.And(0 <= j, j < nb), z3.Select(eb, j) == z3.Select(er, j + na)), patterns=[z3.Select(eb, j)]),
+                  forall([j], z3.Implies(z3.And(0 <= j, j < na), z3.Select(ea, j) == z3.Select(er, j)), patterns=[z3.Select(ea, j)]))
         st.list_set_elems(o, er, na + nb)
         return k(st, NONE_V)
     M[('list', 'extend')] = m_extend
@@ -243,7 +254,9 @@ def install(E):
                                patterns=[z3.Select(el, j)]))
             er = z3.Const(fresh_name('rm'), el.sort())
             s.assume(forall([j], z3.Implies(z3.And(0 <= j, j < p), z3.Select(er, j) == z3.Select(el, j)), patterns=[z3.Select(er, j)]),
-                     forall([j], z3.Implies(z3.And(p <= j, j < ln - 1), z3.Select(er, j) == z3.Select(el, j + 1)), patterns=[z3.Select(er, j)]))
+                     forall([j], z3.Implies(z3.And(p <= j, j < ln - 1), z3.Select(er, j) == z3.Select(el, j + 1)), patterns=[z3.Select(er, j)]),
+                     forall([j], z3.Implies(z3.And(0 <= j, j < p), z3.Select(el, j) == z3.Select(er, j)), patterns=[z3.Select(el, j)]),
+                     forall([j], z3.Implies(z3.And(p < j, j < ln), z3.Select(el, j) == z3.Select(er, j - 1)), patterns=[z3.Select(el, j)]))
             s.list_set_elems(o, er, ln - 1)
             s.ghost = dict(s.ghost)
             s.ghost['_removed_at'] = SV(INT, p)
@@ -394,7 +407,7 @@ def install(E):
         j = z3.Int(fresh_name('j'))
         dv = z3.Select(st.heap[st._dv(kty, vty)], o.t)
         st.assume(forall([j], z3.Implies(z3.And(0 <= j, j < ln), z3.Select(er, j) == z3.Select(dv, z3.Select(ek, j))),
-                            patterns=[z3.Select(er, j)]))
+                            patterns=[z3.Select(er, j), z3.Select(ek, j)]))
         return k(st, r)
     M[('dict', 'values')] = m_values
 
@@ -412,7 +425,7 @@ def install(E):
         ts = sort_of(tty)
         st.assume(forall([j], z3.Implies(z3.And(0 <= j, j < ln),
                                             z3.Select(er, j) == ts.constructor(0)(z3.Select(ek, j), z3.Select(dv, z3.Select(ek, j)))),
-                            patterns=[z3.Select(er, j)]))
+                            patterns=[z3.Select(er, j), z3.Select(ek, j)]))
         return k(st, r)
     M[('dict', 'items')] = m_items
 
@@ -520,6 +533,7 @@ def install(E):
             if it.ty.kind == 'dict' or (it.ty.kind == 'ref' and e.ctab.dict_kv(it.ty.args[0])):
                 s.assume(*s.dict_key_axioms(it))
                 it = s.dict_keylist(it)
+            src_pat = None
             if it.ty.kind == 'range':
                 lo, hi = it.items
                 m = z3.If(hi.t > lo.t, hi.t - lo.t, z3.IntVal(0))
@@ -528,6 +542,7 @@ def install(E):
             elif it.ty.kind == 'list':
                 ln = s.list_len(it)
                 elem_at = lambda s2, j: s2.list_get(it, j)
+                src_pat = lambda j: z3.Select(s.list_elems(it), j)
             else:
                 raise Unsupported('comprehension over ' + str(it.ty))
             j = z3.Int(fresh_name('c'))
@@ -551,10 +566,10 @@ def install(E):
             er = s.list_elems(r)
             # extra path facts of the probe (e.g. well-formedness) are universally valid consequences
             extra = s3.pc[len(s.pc):]
-            body = z3.Select(er, j) == pack(v, ety)
-            hyp = [c for c in extra]
+            body = z3.And(z3.Select(er, j) == pack(v, ety), *[c for c in extra[2:]])
             guard = z3.And(0 <= j, j < ln)
-            s.assume(forall([j], z3.Implies(guard, body), patterns=[z3.Select(er, j)]))
+            pats = [z3.Select(er, j)] + ([src_pat(j)] if src_pat is not None else [])
+            s.assume(forall([j], z3.Implies(guard, body), patterns=pats))
             k(s, r)
         e.ev(g.iter, st, got)
     X['listcomp'] = listcomp
